@@ -211,6 +211,11 @@ func (s *Schema) update(from *Schema) (err error) {
 	}
 
 	s.Cache = from.Cache
+	// the asynchronous writes routine may already be running for this schema,
+	// the new settings must not make a second one start
+	if s.AsyncWrites != nil && from.AsyncWrites != nil {
+		from.AsyncWrites.routineStarted = s.AsyncWrites.routineStarted
+	}
 	s.AsyncWrites = from.AsyncWrites
 
 	return
